@@ -26,7 +26,7 @@ from typing import Any
 from . import client as cl
 from . import linq_eval as le
 from . import vloop
-from .core import Streams, mix
+from .core import Streams, mix, small_stack
 
 ENGINE_VERSION = 1
 _ADDR = re.compile(r"0x[0-9a-fA-F]+")
@@ -111,7 +111,7 @@ TERMS = ["pandas", "awkward", "root", "parquet"]
 FAULT_KINDS = [
     "exec_error", "stall_cancel", "cancel", "timeout", "sync_in_loop", "derive_fail",
     "shared_ast", "typed", "unbind", "nontransportable", "touch", "override", "dup_exec",
-    "threads", "capture_fault",
+    "threads", "capture_fault", "small_stack",
 ]
 
 SAMPLES = [
@@ -209,6 +209,12 @@ def gen_site(rng, boom_ok=False):
             lambda: f"({e}.a + {v()}, {e}.tag == {tag()})",
             lambda: f"[{j}.pt for {j} in {e}.jets if {j}.pt > {v()} if {j}.eta < {v()}]",
         ]
+        # generator expressions (their own code object, unlike list comprehensions in 3.12)
+        forms += [
+            lambda: f"sum({j}.pt + {v()} for {j} in {e}.jets)",
+            lambda: f"sum({j}.pt for {j} in {e}.jets if {j}.eta < {v()})",
+            lambda: f"{e}.jets.Select(lambda {j}: sum({k}.pt * {v()} for {k} in {e}.jets if {k}.pt > {j}.pt))",
+        ]
         # the same name bound at two nesting levels, and used again after the inner scope ends
         forms += [
             lambda: f"{e}.jets.Select(lambda {k}: {k}.pt).Select(lambda {j}: {e}.jets.Where(lambda {j}: {j}.pt > {v()}).Count() * {j})",
@@ -290,8 +296,8 @@ def generate(prop: str, seed: int, tier: str = "quick", fault_free: bool = False
         faults = [k for k in FAULT_KINDS if f.random() < 0.6]
     # swarm: most runs are short and small; a few are BIG (long histories, many datasets, deep
     # chains, many calls in flight) so that nothing silently depends on the small configuration
-    big = (not fault_free) and c.random() < (0.08 if tier == "thorough" else 0.03)
-    n_ds = c.randint(5, 9) if big else c.randint(1, 4)
+    big = (not fault_free) and c.random() < (0.02 if tier == "thorough" else 0.004)
+    n_ds = c.randint(5, 8) if big else c.randint(1, 4)
     typed_ok = "typed" in faults and prop != "C04"
     datasets = [{"typed": (c.randrange(3) if typed_ok and c.random() < 0.55 else -1)}
                 for _ in range(n_ds)]
@@ -299,6 +305,9 @@ def generate(prop: str, seed: int, tier: str = "quick", fault_free: bool = False
     pool = [list(c.choice(catalog)) for _ in range(c.randint(3, 8))]
     sites = [gen_site(c, boom_ok="capture_fault" in faults) for _ in range(c.randint(2, 8))]
     config = {
+        # the library logs (overwritten metadata, unknown types...): nothing may depend on
+        # whether anybody listens
+        "log_level": "off" if fault_free else c.choice(["off", "off", "WARNING", "INFO", "DEBUG"]),
         "n_datasets": n_ds,
         "datasets": datasets,
         "pool": pool,
@@ -307,7 +316,7 @@ def generate(prop: str, seed: int, tier: str = "quick", fault_free: bool = False
         "real_disk": bool(tier == "thorough" and c.random() < 0.25),
         "step_cap": 200000 if big else 20000,
         "big": big,
-        "live_cap": 80 if big else 24,
+        "live_cap": 48 if big else 24,
     }
     weights = dict(PROFILES[prop])
     if "derive_fail" not in faults:
@@ -325,7 +334,7 @@ def generate(prop: str, seed: int, tier: str = "quick", fault_free: bool = False
         modes["shared"] = 0
     n_ops = min(40, 2 + int(w.expovariate(1 / 11.0)))
     if big:
-        n_ops = w.randint(80, 220)
+        n_ops = w.randint(60, 160)
     ops = []
     spawned = []
     qhist = {}
@@ -335,7 +344,7 @@ def generate(prop: str, seed: int, tier: str = "quick", fault_free: bool = False
             ops.append({"op": "derive", "parent": w.randrange(64), "lam": w.randrange(64),
                         "mode": _wchoice(w, modes)})
             if big and w.random() < 0.08:  # a deep chain: derive again and again from the newest
-                for _ in range(w.randint(10, 40)):
+                for _ in range(w.randint(10, 30)):
                     ops.append({"op": "derive", "parent": -1, "lam": w.randrange(64),
                                 "mode": _wchoice(w, modes)})
         elif k == "md":
@@ -382,10 +391,13 @@ def generate(prop: str, seed: int, tier: str = "quick", fault_free: bool = False
         elif k == "touch":
             ops.append({"op": "touch", "kind": w.choice(["touch", "rewrite", "append"])})
         elif k == "exec_sync":
-            ops.append({"op": "exec_sync", "stream": w.randrange(64),
-                        "titled": w.random() < 0.8,
-                        "override": ("override" in faults and w.random() < 0.2),
-                        "plan": _gen_plan(f, faults, True)})
+            op = {"op": "exec_sync", "stream": w.randrange(64),
+                  "titled": w.random() < 0.8,
+                  "override": ("override" in faults and w.random() < 0.2),
+                  "plan": _gen_plan(f, faults, True)}
+            if "small_stack" in faults and f.random() < 0.3:
+                op["stack"] = f.choice([20, 30, 45, 70])  # frames for the worker thread
+            ops.append(op)
         elif k == "spawn":
             si = w.randrange(64)
             if spawned and "dup_exec" in faults and w.random() < 0.3:
@@ -604,6 +616,8 @@ class Forest:
     async def peer_exec(self, peer, self_obj, a, title):
         from func_adl import find_EventDataset
 
+        if getattr(self, "stack_window", None) is not None:
+            self.stack_window.restore()  # harness code runs with the normal stack
         self.exec_starts += 1
         # attribution: the call whose coroutine / thread (transitively) started this executor;
         # titles may repeat between calls, so they are only a fallback
@@ -651,12 +665,37 @@ class Forest:
         async def ov(a, title=None):
             return await self.peer_exec(f"OV{k}", None, a, title)
 
-        return ov
+        if k % 2 == 0:
+            return ov
+        eng = self
+
+        class RecordingExecutor:
+            "A callable object that is falsy (it is a container of the requests served so far)."
+
+            def __init__(self):
+                self.served = []
+
+            def __len__(self):
+                return 0
+
+            async def __call__(self, a, title=None):
+                return await eng.peer_exec(f"OV{k}", None, a, title)
+
+        return RecordingExecutor()
 
     # -- setup -------------------------------------------------------------------------------
     def setup(self):
         from . import zoo
+        import logging
 
+        lvl = self.cfg.get("log_level", "off")
+        if lvl != "off":
+            logging.disable(logging.NOTSET)
+            lg = logging.getLogger("func_adl")
+            lg.handlers[:] = [logging.NullHandler()]
+            lg.propagate = False
+            lg.setLevel(getattr(logging, lvl))
+            self.stat(f"runs_with_logging_{lvl}")
         zoo.setup()
         self.zoo = zoo
         self.datasets = {}
@@ -944,7 +983,7 @@ class Forest:
                      "python": repr(refs[bad])[:120], "query": repr(got[bad])[:120],
                      "bindings": {n: c.value[n] for n in site["free"]},
                      "shadow": site.get("shadow")})
-            loose = free_names(lam)
+            loose = free_names(lam) - {"sum", "len", "abs", "max", "min"}
             if loose:
                 raise Violation("C04/scope", {"site": site["lam"], "emitted": _safe_unparse(lam),
                                               "free_names_left_in_query": sorted(loose)})
@@ -1185,7 +1224,8 @@ class Forest:
 
     def run_sync(self, call, mt=False):
         "stream.value(...) on the current thread (blocks the outer loop, as in production)."
-        self.expectations(call)
+        if not call["began"]:
+            self.expectations(call)
         t0 = self.world.now
         tok = CURRENT_CALL.set(call)
         prev = self.sync_call
@@ -1238,7 +1278,28 @@ class Forest:
         self.last_op = "execute"
         call = self.new_call(m, op["plan"], op["override"], "sync", None, titled=op["titled"])
         n0 = self.exec_starts
-        self.run_sync(call)
+        if op.get("stack"):
+            # resource fault: the library runs with few frames left; a deep recursion overflows
+            # as it would for a much longer query.  The call may then fail with RecursionError
+            # (and only with that) before any executor starts - never return wrong data.
+            call["small_stack"] = True
+            self.stat("fault_small_stack")
+            self.expectations(call)  # harness work is done before the window opens
+            self.world.small_stack = op["stack"]  # applied inside make_sync's worker thread
+            self.stack_window = small_stack(0)
+            try:
+                self.run_sync(call)
+            finally:
+                self.world.small_stack = None
+                self.stack_window.restore()
+                self.stack_window = None
+            if call["res"][0] == "exc" and isinstance(call["res"][1], RecursionError) \
+                    and not call["starts"]:
+                self.stat("small_stack_overflows")
+                self.ev("call_overflow", call["no"])
+                return
+        else:
+            self.run_sync(call)
         self.stat("exec_sync")
         if call["title"] is None and "C12" in self.oracles and self.exec_starts - n0 != len(call["starts"]):
             raise Violation("C12/route", {"what": "untitled call: executor starts not attributable"})
